@@ -13,6 +13,7 @@ import (
 	"syscall"
 	"time"
 
+	"github.com/andydunstall/piko/pkg/auth"
 	"github.com/andydunstall/piko/server/cluster"
 	"github.com/andydunstall/piko/server/config"
 	"verifharness/internal/e4"
@@ -70,6 +71,8 @@ func startProc(id string, join []string, grace time.Duration) *procNode {
 		"--cluster.gossip.bind-addr", n.Gossip, "--cluster.gossip.interval", "15ms",
 		"--cluster.abort-if-join-fails=false", "--cluster.join-timeout", "5s",
 		"--grace-period", grace.String(), "--log.level", "error", "--proxy.access-log.disable",
+		// upstream connections are authenticated with (far from expiry) tokens
+		"--upstream.auth.hmac-secret-key", string(e4.Keys().HMAC),
 	}
 	for _, j := range join {
 		args = append(args, "--cluster.join", j)
@@ -164,7 +167,10 @@ func runC18(c c18Case) (sig, msg string) {
 		}
 	}
 	defer stopAll()
-	mut := func(cf *config.Config) { cf.GracePeriod = 3 * time.Second }
+	mut := func(cf *config.Config) {
+		cf.GracePeriod = 3 * time.Second
+		cf.Upstream.Auth = auth.Config{HMACSecretKey: string(e4.Keys().HMAC)}
+	}
 	if c.LostIsSeed {
 		lost = startProc("lostnode", nil, grace)
 		for i := 0; i < 2; i++ {
@@ -216,7 +222,7 @@ func runC18(c c18Case) (sig, msg string) {
 	if c.Phase != "idle" {
 		for _, ep := range eps {
 			l, err := e4.Listen(context.Background(), balancer.ln.Addr().String(), ep, "l-"+ep, e4.ListenOpts{
-				Handler: nil, MinBackoff: 20 * time.Millisecond, MaxBackoff: 200 * time.Millisecond})
+				Token: c16Token(0), MinBackoff: 20 * time.Millisecond, MaxBackoff: 200 * time.Millisecond})
 			if err != nil {
 				return "listen-failed", desc + ": " + err.Error()
 			}
@@ -306,6 +312,10 @@ func runC18(c c18Case) (sig, msg string) {
 		for _, s := range survivors {
 			if nd, ok := s.State().Node("lostnode"); ok && nd.Status != wantStatus {
 				return "departure-not-announced", fmt.Sprintf("%s: after a graceful shutdown %s lists the node as %s, not left", desc, s.ID, nd.Status)
+			}
+			// it stopped advertising its upstreams before it announced its departure
+			if nd, ok := s.State().Node("lostnode"); ok && len(nd.Endpoints) != 0 {
+				return "left-node-still-advertising", fmt.Sprintf("%s: the node shut down gracefully but %s still lists it with endpoints %v", desc, s.ID, nd.Endpoints)
 			}
 		}
 	}
